@@ -1,8 +1,10 @@
 //! Model executors: the expected response of a request according to the reference model.
 //! `None` = this op has no model (differential-only).
 use crate::req::{Req, Resp};
+pub mod edwards;
 pub mod field;
 pub mod scalar;
+pub mod scalarmul;
 
 pub fn exec(req: &Req) -> Option<Resp> {
     let op = req.op.as_str();
@@ -11,6 +13,12 @@ pub fn exec(req: &Req) -> Option<Resp> {
     }
     if op.starts_with("fe.") {
         return field::exec(op, &req.a);
+    }
+    if op.starts_with("ed.") {
+        return edwards::exec(op, &req.a);
+    }
+    if op.starts_with("sm.") {
+        return scalarmul::exec(op, &req.a);
     }
     None
 }
